@@ -410,7 +410,7 @@ class Node(SceneNode):
                 self.xmlnode.append(c.xmlnode)
         xmlnodes = [c.xmlnode for c in self.children]
         xmlnodes.extend([t.xmlnode for t in self.transforms])
-        for n in self.xmlnode:
+        for n in list(self.xmlnode):
             if n not in xmlnodes:
                 self.xmlnode.remove(n)
 
@@ -574,7 +574,7 @@ class GeometryNode(SceneNode):
             if m.xmlnode not in matparent:
                 matparent.append(m.xmlnode)
         xmlnodes = [m.xmlnode for m in self.materials]
-        for n in matparent:
+        for n in list(matparent):
             if n not in xmlnodes:
                 matparent.remove(n)
 
@@ -991,7 +991,7 @@ class Scene(DaeObject):
             if node.xmlnode not in self.xmlnode:
                 self.xmlnode.append(node.xmlnode)
         xmlnodes = [n.xmlnode for n in self.nodes]
-        for node in self.xmlnode:
+        for node in list(self.xmlnode):
             if node not in xmlnodes:
                 self.xmlnode.remove(node)
 
